@@ -130,7 +130,7 @@ func c37CheckWorld(c *core.Ctx, w b6.World, kind string, witness any) {
 }
 
 var c37Injections = []string{"path-1pt", "path-missing-point", "closed-clockwise", "closed-bowtie", "closed-2-distinct", "area-missing-path",
-	"area-open-path", "area-of-invalid-path", "area-of-clockwise-path", "path-all-missing", "area-open-latlng-path", "area-closed-latlng-path"}
+	"area-open-path", "area-of-invalid-path", "area-of-clockwise-path", "path-all-missing", "area-open-latlng-path", "area-closed-latlng-path", "areas-before-shared-ring"}
 
 func init() {
 	var required []string
@@ -142,7 +142,7 @@ func init() {
 		ID:        "C37",
 		Title:     "Every feature in a world is valid",
 		Technique: "invariant walk: every feature enumerated from built and edited worlds is re-validated by an independent validity predicate",
-		Rule: "case = (world kind basic builder / compact builder / basic-mutable / mutable-overlay, a valid generated feature set plus 1-4 injected features of 12 kinds (11 invalid, one valid control: an area over a path closed by lat/lng literals), " +
+		Rule: "case = (world kind basic builder / compact builder / basic-mutable / mutable-overlay, a valid generated feature set plus 1-4 injected features of 13 kinds (11 invalid, one valid control: an area over a path closed by lat/lng literals, and three areas over one ring that reach the builder before the ring, the middle one invalid), " +
 			"and, in one case of five, a burst of 101-180 further invalid paths and areas, in source order or shuffled; for mutable kinds the invalid features arrive as AddFeature calls inside an edit history); distinct = kind + features + injections; " +
 			"non-trivial = at least one injected feature was dropped or rejected",
 		Assumptions: []string{"golang/geo Loop.Validate and Loop.Area decide loop validity and orientation", "clockwise closed paths may be inverted by builders (then they must be counter-clockwise in the world)"},
@@ -168,6 +168,7 @@ func init() {
 			}
 			absentPoint := b6.FeatureID{Type: b6.FeatureTypePoint, Namespace: b6.NamespaceOSMNode, Value: 999001}
 			absentPath := b6.FeatureID{Type: b6.FeatureTypePath, Namespace: b6.NamespaceOSMWay, Value: 999002}
+			var front []*wm.Spec    // features that must reach the builder before everything else
 			var injected []*wm.Spec // invalid features and the (valid) features they need
 			var invalidIDs []b6.FeatureID
 			var clockwiseIDs []b6.FeatureID
@@ -248,6 +249,34 @@ func init() {
 						injected = append(injected, p, a)
 						invalidIDs = append(invalidIDs, a.ID)
 					}
+				case "areas-before-shared-ring":
+					// three areas over one valid ring, delivered before the ring: the first and the last
+					// are valid, the middle one also has a polygon over a path that is missing (or open)
+					ps, ring := g.Ring(off, off, 3000, r.Range(3, 6), false)
+					mk := func(paths ...b6.FeatureID) *wm.Spec {
+						a := &wm.Spec{ID: g.NewID(b6.FeatureTypeArea, b6.NamespaceOSMWay), Tags: []b6.Tag{{Key: "#building", Value: b6.NewStringExpression("yes")}}}
+						for _, p := range paths {
+							a.Polys = append(a.Polys, wm.Poly{PathIDs: []b6.FeatureID{p}})
+						}
+						return a
+					}
+					second := absentPath
+					var openPath *wm.Spec
+					if r.Bool() && len(pts) >= 3 {
+						openPath = &wm.Spec{ID: g.NewID(b6.FeatureTypePath, b6.NamespaceOSMWay)}
+						for _, j := range r.Perm(len(pts))[:3] {
+							openPath.Path = append(openPath.Path, wm.Elem{Ref: pts[j].ID})
+						}
+						second = openPath.ID
+					}
+					a1, a2, a3 := mk(ring.ID), mk(ring.ID, second), mk(ring.ID)
+					front = append(front, a1, a2, a3)
+					injected = append(injected, ps...)
+					if openPath != nil {
+						injected = append(injected, openPath)
+					}
+					injected = append(injected, ring)
+					invalidIDs = append(invalidIDs, a2.ID)
 				case "area-of-invalid-path":
 					ps, ring := g.Ring(off, off, 3000, 4, false)
 					ring.Path[1], ring.Path[2] = ring.Path[2], ring.Path[1]
@@ -276,9 +305,9 @@ func init() {
 				names = append(names, fmt.Sprintf("burst-%d", burst))
 				c.Count("burst_over_100_invalid")
 			}
-			all := append(append([]*wm.Spec{}, valid...), injected...)
+			all := append(append(append([]*wm.Spec{}, front...), valid...), injected...)
 			shuffled := r.Chance(0.5)
-			if shuffled && (kind == "basic" || kind == "compact") {
+			if shuffled && len(front) == 0 && (kind == "basic" || kind == "compact") {
 				core.Shuffle(r, all)
 				c.Count("shuffled_sources")
 			}
@@ -327,7 +356,7 @@ func init() {
 				world = mw
 				model := wm.ModelOf(valid)
 				var script []string
-				for _, s := range injected {
+				for _, s := range append(append([]*wm.Spec{}, front...), injected...) {
 					for j := r.Intn(3); j > 0; j-- { // valid edits in between
 						op := g.NextOp(model)
 						script = append(script, op.String())
